@@ -98,6 +98,7 @@ type NilAnalysis struct {
 	fieldLo   map[fieldLoKey]int
 	byName    map[*ssa.Function]map[string]ssa.Value
 	litF      map[string]bool
+	escF      map[string]map[string]bool
 	freezeNN  bool // warm-up rounds: parameter non-nil facts are not falsified yet
 	converged bool
 }
